@@ -24,6 +24,9 @@ pub struct Case {
     pub delta: f64,
     pub backlog: usize,
     pub ops: Vec<Op>,
+    /// every weight of the history is multiplied by 10^weight_exp (any finite weight >= 0 is legal)
+    #[serde(default)]
+    pub weight_exp: i8,
 }
 
 pub struct C16;
@@ -106,6 +109,7 @@ impl Check for C16 {
         let mut reads = 0u32;
         let mut zero_inserts = 0u32;
         let mut max_fusion = false;
+        let wunit = 10f64.powi(c.weight_exp as i32);
         let ok = |x: f64, w: f64| x.is_finite() && w.is_finite() && w > 0.0 && (x * w).is_finite() && (x == 0.0 || (x * w).abs() > 1e-290);
         macro_rules! twin_eq {
             ($step:expr, $what:expr, $a:expr, $b:expr) => {{
@@ -126,6 +130,7 @@ impl Check for C16 {
                     t.add(*x, 1.0);
                 }
                 Op::InsertW(x, w) => {
+                    let w = &(*w * wunit);
                     if !ok(*x, *w) {
                         continue;
                     }
@@ -204,6 +209,7 @@ impl Check for C16 {
             .class(c.scale.name())
             .class_if(max_fusion, "fusion")
             .class_if(zero_inserts > 0, "zero_weight_inserts")
+            .class_if(c.weight_exp != 0, "rescaled_weights")
             .class_if(!t.unit, "weighted");
         info.inner_evals = c.ops.len() as u64;
         Verdict::Pass(info)
@@ -224,8 +230,23 @@ fn strategy(tier: Tier) -> BoxedStrategy<Case> {
         2 => Just(Op::ReadAgg),
         1 => Just(Op::Clear),
     ];
-    (scale(), delta_strategy(), backlog_strategy(), prop::collection::vec(op, 0..maxops))
-        .prop_map(|(scale, delta, backlog, ops)| Case { scale, delta, backlog, ops })
+    let weight_exp = prop_oneof![3 => Just(0i8), 1 => -30i8..=30, 1 => prop_oneof![Just(-20i8), Just(-17), Just(-16), Just(20)]];
+    (scale(), delta_strategy(), backlog_strategy(), prop::collection::vec(op, 0..maxops), weight_exp)
+        .prop_map(|(scale, delta, backlog, ops, weight_exp)| {
+            // a rescaled history uses weighted inserts only (a unit weight would drown 1e-20 in rounding)
+            let ops = if weight_exp != 0 {
+                ops.into_iter()
+                    .map(|o| match o {
+                        Op::Insert(x) => Op::InsertW(x, 1.0),
+                        Op::Block { n, lo, .. } => Op::InsertW(lo, n as f64),
+                        o => o,
+                    })
+                    .collect()
+            } else {
+                ops
+            };
+            Case { scale, delta, backlog, ops, weight_exp }
+        })
         .boxed()
 }
 
@@ -234,7 +255,7 @@ pub fn checks() -> Vec<Box<dyn DynCheck>> {
 }
 
 pub fn run(ctx: &Ctx) {
-    ctx.set_rule("generated: scale K0..K3, delta 1.01..1000, backlog 0..1000, histories of insert / insert_weighted (weights 1e-6..1e6) / seeded blocks of unit inserts / zero-weight inserts / reads (quantile, cdf, aggregates: they force merges) / clear. Oracle: count() == sum of weights (exact for unit weights, rel 1e-9 otherwise), sum()/mean() within 1e-9 of the accumulated |x*w|, min()/max() exactly the extremes, every read bit-identical to a twin digest fed the same history without the zero-weight inserts, is_empty() iff no positive weight since creation/clear (checked after every op without forcing a merge). Non-trivial: >= 2 reads (merges) and fusion happened (n_centroids < inserts). Distinct = hash of the case.");
+    ctx.set_rule("generated: scale K0..K3, delta 1.01..1000, backlog 0..1000, histories of insert / insert_weighted (weights 1e-6..1e6, in 40 % of the histories all multiplied by 10^e with e in -30..=30) / seeded blocks of unit inserts / zero-weight inserts / reads (quantile, cdf, aggregates: they force merges) / clear. Oracle: count() == sum of weights (exact for unit weights, rel 1e-9 otherwise), sum()/mean() within 1e-9 of the accumulated |x*w|, min()/max() exactly the extremes, every read bit-identical to a twin digest fed the same history without the zero-weight inserts, is_empty() iff no positive weight since creation/clear (checked after every op without forcing a merge). Non-trivial: >= 2 reads (merges) and fusion happened (n_centroids < inserts). Distinct = hash of the case.");
     ctx.run_regressions(&[&C16]);
     let t = ctx.tier;
     ctx.run_random(&C16, t.pick(60_000, 1_000_000), move || strategy(t));
